@@ -342,7 +342,7 @@ def space(tier):
         p = gen_plan(j, rng, ["timing"])
         p["faults"][0]["api"] = "send" if j % 3 else "refresh"
         return p
-    sp.add("timing", 6000 if tier == "quick" else 400_000, timing)
+    sp.add("timing", 12000 if tier == "quick" else 400_000, timing)
     allk = FAULTS_DATA + FAULTS_V3
     pairs = [(a, b) for a in allk for b in allk]
 
@@ -354,7 +354,7 @@ def space(tier):
         a, b = pairs[j % len(pairs)]
         return gen_plan(j, rng, [a, b])
     sp.add("fault_pairs", len(pairs) * (10 if tier == "quick" else 600), pairs_fn)
-    sp.add("random", 3000 if tier == "quick" else 300_000, gen_plan)
+    sp.add("random", 10000 if tier == "quick" else 300_000, gen_plan)
     return sp
 
 
